@@ -67,6 +67,20 @@ def run_shard(spec, rec, lib):
     for i in range(spec["count"]):
         case = rootchain.gen_pair(rng)
         model, out = judge(case, rec, lib)
+        if out.accepted and model.v == models.ACCEPT:
+            # related neighbours in the same process: the signature entries the library has just
+            # verified, re-used verbatim on (a) the same version with edited content and
+            # (b) a forged successor of the accepted root
+            import copy
+
+            forged = copy.deepcopy(case["new"])
+            forged["signed"]["delegations"]["key_mgr"] = {"pubkeys": ["%064x" % rng.getrandbits(256)], "threshold": 1}
+            judge({"kind": "rootpair", "trusted": case["trusted"], "new": forged, "row": "forged-same-version"}, rec, lib)
+            succ = copy.deepcopy(case["new"])
+            succ["signed"]["version"] = case["new"]["signed"]["version"] + 1
+            succ["signed"]["delegations"]["key_mgr"] = {"pubkeys": ["%064x" % rng.getrandbits(256)], "threshold": 1}
+            judge({"kind": "rootpair", "trusted": case["new"], "new": succ, "row": "forged-successor-reusing-signatures"}, rec, lib)
+            rec.count("forged_neighbours_after_accept", 2)
         if i < 2:
             rec.sample({"pair": rootchain.brief(case), "model": model.as_json(), "observed": out.as_json()})
 
